@@ -25,9 +25,14 @@ pub fn val<T>(x: T) -> impl FnOnce() -> Result<T, SynthesisError> {
     move || if BLANK.with(|b| b.get()) { Err(SynthesisError::AssignmentMissing) } else { Ok(x) }
 }
 
+thread_local! {
+    /// optimisation goal of the constraint systems the harness creates: 0 = Constraints (what Groth16 and the
+    /// pinned keys use; the only goal under which shapes are compared), 1 = Weight, 2 = None
+    pub static GOAL: std::cell::Cell<u8> = std::cell::Cell::new(0);
+}
 pub fn new_cs(setup: bool) -> CS {
     let cs = ConstraintSystem::<Fq>::new_ref();
-    cs.set_optimization_goal(OptimizationGoal::Constraints);
+    cs.set_optimization_goal(match GOAL.with(|g| g.get()) { 1 => OptimizationGoal::Weight, 2 => OptimizationGoal::None, _ => OptimizationGoal::Constraints });
     if setup {
         cs.set_mode(SynthesisMode::Setup);
     }
@@ -358,6 +363,14 @@ pub fn gadgets() -> Vec<Gadget> {
     g!(v, "conditional_enforce_equal", "EEB", false, |cs, i| { let gd = wb(cs, fbool(i))?; raw(cs, &e1(i))?.conditional_enforce_equal(&raw(cs, &e2(i))?, &gd)?; Ok(OutVar::Unit) }, |i| if !fbool(i) || e1(i) == e2(i) { Some(Out::Unit) } else { None });
     g!(v, "conditional_enforce_not_equal", "EEB", false, |cs, i| { let gd = wb(cs, fbool(i))?; raw(cs, &e1(i))?.conditional_enforce_not_equal(&raw(cs, &e2(i))?, &gd)?; Ok(OutVar::Unit) }, |i| if !fbool(i) || e1(i) != e2(i) { Some(Out::Unit) } else { None });
     g!(v, "conditionally_select", "EEB", false, |cs, i| { let gd = wb(cs, fbool(i))?; Ok(OutVar::E(ElementVar::conditionally_select(&gd, &raw(cs, &e1(i))?, &raw(cs, &e2(i))?)?)) }, |i| Some(Out::E(if fbool(i) { e1(i) } else { e2(i) })));
+    // --- equality family on two *constants* (no constraint system is attached to either operand): enforcing a
+    //     false statement must fail (error or unsatisfiable), never pass silently
+    g!(v, "is_eq (constant, constant)", "EE", false, |cs, i| Ok(OutVar::B(ElementVar::new_constant(cs.clone(), e1(i))?.is_eq(&ElementVar::new_constant(cs.clone(), e2(i))?)?)), |i| Some(Out::B(e1(i) == e2(i))));
+    g!(v, "enforce_equal (constant, constant)", "EE", false, |cs, i| { ElementVar::new_constant(cs.clone(), e1(i))?.enforce_equal(&ElementVar::new_constant(cs.clone(), e2(i))?)?; Ok(OutVar::Unit) }, |i| if e1(i) == e2(i) { Some(Out::Unit) } else { None });
+    g!(v, "enforce_not_equal (constant, constant)", "EE", false, |cs, i| { ElementVar::new_constant(cs.clone(), e1(i))?.enforce_not_equal(&ElementVar::new_constant(cs.clone(), e2(i))?)?; Ok(OutVar::Unit) }, |i| if e1(i) != e2(i) { Some(Out::Unit) } else { None });
+    g!(v, "conditional_enforce_equal (constant, constant)", "EEB", false, |cs, i| { let gd = Boolean::constant(fbool(i)); ElementVar::new_constant(cs.clone(), e1(i))?.conditional_enforce_equal(&ElementVar::new_constant(cs.clone(), e2(i))?, &gd)?; Ok(OutVar::Unit) }, |i| if !fbool(i) || e1(i) == e2(i) { Some(Out::Unit) } else { None });
+    g!(v, "conditional_enforce_equal (constant, constant, witness guard)", "EEB", false, |cs, i| { let gd = wb(cs, fbool(i))?; ElementVar::new_constant(cs.clone(), e1(i))?.conditional_enforce_equal(&ElementVar::new_constant(cs.clone(), e2(i))?, &gd)?; Ok(OutVar::Unit) }, |i| if !fbool(i) || e1(i) == e2(i) { Some(Out::Unit) } else { None });
+    g!(v, "conditional_enforce_not_equal (constant, constant)", "EEB", false, |cs, i| { let gd = Boolean::constant(fbool(i)); ElementVar::new_constant(cs.clone(), e1(i))?.conditional_enforce_not_equal(&ElementVar::new_constant(cs.clone(), e2(i))?, &gd)?; Ok(OutVar::Unit) }, |i| if !fbool(i) || e1(i) != e2(i) { Some(Out::Unit) } else { None });
     // --- equality family on operands that are both still undecoded encodings (valid or not)
     g!(v, "is_eq (both lazy encodings)", "FF", true, |cs, i| Ok(OutVar::B(lazy_w(cs, &f1(i))?.is_eq(&lazy_w(cs, &f2(i))?)?)), |i| native_pair(i).map(|(a, bb)| Out::B(a == bb)));
     g!(v, "enforce_equal (both lazy encodings)", "FF", true, |cs, i| { lazy_w(cs, &f1(i))?.enforce_equal(&lazy_w(cs, &f2(i))?)?; Ok(OutVar::Unit) }, |i| native_pair(i).and_then(|(a, bb)| if a == bb { Some(Out::Unit) } else { None }));
@@ -450,6 +463,13 @@ pub fn field_inputs_decode(ctx: &Ctx, rng: &mut rand_chacha::ChaCha20Rng, nrand:
     for s in crate::eng::decode_nonsquare_oncurve(ctx, rng) {
         extra.push((s.clone(), "nonsquare-candidate-on-curve"));
         extra.push((c.f.neg(&s), "nonsquare-candidate-on-curve"));
+    }
+    // negative s whose negation is a valid encoding
+    for k in [8u64, 2 * 8, 0] {
+        let _ = k;
+    }
+    for s in crate::zoo::smallest_valid_s(c, 6).into_iter().skip(1) {
+        extra.push((c.f.neg(&s), "negation of a valid encoding"));
     }
     // special field values (sqrt(-1), zeta, 1/2, d, ...) as encodings
     for v in [c.zeta.clone(), c.f.inv(&c.zeta).unwrap(), c.d.clone(), c.f.inv(&b(2)).unwrap(), c.f.sqrt(&c.f.neg(&b(1))).unwrap()] {
